@@ -76,7 +76,7 @@ def idbdrive_path(flavor="asan"):
         open(tmp, "w").write(body)
         os.replace(tmp, p)
     exe = core.build_harness("idbdrive", ["idbdrive.cxx"], flavor=flavor,
-                             extra=["-I" + d, "-I" + os.path.join(core.VERIF, "harness"),
+                             extra=["-fno-access-control", "-I" + d, "-I" + os.path.join(core.VERIF, "harness"),
                                     "-DIDBDRIVE_TABLE_SHA=0x" + hashlib.sha1(
                                         body.encode() + open(os.path.join(core.VERIF, "harness", "idbdump.cxx"), "rb").read()
                                     ).hexdigest()[:8]])
